@@ -43,7 +43,7 @@ pub enum Ty {
     /// a previously generated struct / enum of the same universe
     Struct(usize),
     Enum(usize),
-    /// harness type `NilU32` through `with = "...", has_nil` (nil encodes as null)
+    /// harness type `NilU32` through `with = "...", has_nil` (nil is a sentinel that encodes as five bytes, not as null)
     NilWith,
     /// harness type `NilStr` through encode_with/decode_with/is_nil/nil/cbor_len
     NilFns,
